@@ -33,12 +33,12 @@ TOK = re.compile(r"\[([^\[\]]+)\]")
 DEFAULT_PROFILE = dict(
     ndefs=(1, 3), depth=3, suite=(1, 3), def_depth=2,
     w=dict(text=3, mark=4, expr=4, callc=3, block=1, inc=0, **{"if": 2, "for": 2, "while": 1, "try": 2, "with": 1,
-                                                                 "py": 1, "ret": 1, "brk": 1, "cont": 1, "textf": 1}),
+                                                                 "py": 1, "ret": 1, "brk": 1, "cont": 1, "textf": 1, "mkit": 1, "drain": 1, "itobs": 1}),
     flags=[[], [], ["buffered"], ["filter"], ["buffered", "filter"]],
     p_dec=0.2, p_params=0.6, p_bad_args=0.04, p_rl=0.6, p_loopcond=0.3, p_nested_def=0.25, p_calldefs=0.3,
     p_bparams=0.35, p_empty=0.08, ret_in_flagged=False, loop_in_body_under_for=False, eh=0.0, nincs=(0, 0), p_ieh=0.5,
     p_unbound=0.1, p_amark=0.3, p_fm=0.5, p_dm=0.5, p_cmark=0.25,
-    eh_modes=["true"], ieh_modes=["true"], xcs=["boom"], p_inh=0.0, p_lk=0.0, routes=["context"],
+    eh_modes=["true"], ieh_modes=["true"], xcs=["boom"], p_inh=0.0, p_lk=0.0, routes=["context"], p_src=0.5, npy=(0, 0), p_pymod=0.5,
 )
 
 
@@ -75,6 +75,7 @@ class Ctx:
         self.in_loop = False              # break / continue legal
         self.ret_ok = True
         self.vars = []
+        self.its = []                     # shared iterators (name, kind) assigned in this function
         self.tmpl = tmpl
         self.in_def = False
         self.in_else = False
@@ -86,6 +87,7 @@ class Ctx:
     def child(self, **kw):
         c = copy.copy(self)
         c.vars = self.vars            # same function: assignments are shared
+        c.its = self.its
         for k, v in kw.items():
             setattr(c, k, v)
         return c
@@ -94,6 +96,7 @@ class Ctx:
         """a new Python function (def, block, call body)."""
         c = copy.copy(self)
         c.vars = []
+        c.its = []
         c.pk = {}
         c.in_loop = False
         for k, v in kw.items():
@@ -224,6 +227,30 @@ class Gen:
         d["body"] = self.gen_suite(fctx, depth)
         return d
 
+    PY_W = dict(text=3, mark=4, expr=4, py=1, ret=1, brk=1, cont=1, **{"try": 2, "if": 2, "for": 2})
+
+    def gen_pydef(self, key):
+        """a Python function decorated with runtime.supports_caller (defined in <%! %> or in a module= namespace):
+        an activation like a plain def (wrap_stackframe: _push_frame, try: func() finally: _pop_frame) whose body is
+        Python: context.write, markers, caller.body()/caller.<def>(), try/except, if, for, return."""
+        r = self.rng
+        params = r.choice([[], [dict(n="p", kind="opt", dv="dp")], [dict(n="p", kind="pos", dv="-")],
+                           [dict(n="p", kind="pos", dv="-"), dict(n="kw", kind="dstar", dv="-")]])
+        d = dict(flags=set(), fm=0, dec=False, dm=0, blk=False, params=params, body=[], bsig=self.gen_bsig(), nested=[], home=0, py=True)
+        self.defs[key] = d
+        c = Ctx([], bsig=d["bsig"])
+        c.vars = [p["n"] for p in params]
+        c.pk = {p["n"]: p["kind"] for p in params}
+        c.no_loop = True
+        c.in_def = True
+        saved = self.p["w"]
+        self.p["w"] = self.PY_W
+        try:
+            d["body"] = self.gen_suite(c, 2)
+        finally:
+            self.p["w"] = saved
+        return d
+
     # ---- suites
     def gen_suite(self, ctx, depth, n=None):
         r = self.rng
@@ -233,7 +260,9 @@ class Gen:
                 return out
             n = r.randint(*self.p["suite"])
         for _ in range(n):
-            kinds = ["text", "mark", "expr", "py", "textf"]
+            kinds = ["text", "mark", "expr", "py", "textf", "mkit"]
+            if ctx.its:
+                kinds += ["drain", "itobs"]
             if depth > 0:
                 kinds += ["callc", "block", "inc", "if", "for", "while", "try", "with"]
             if ctx.ret_ok:
@@ -265,6 +294,24 @@ class Gen:
         if v not in ctx.vars:
             ctx.vars.append(v)
         return dict(k="py", v=v, t="t%d" % self.nid())
+
+    def g_mkit(self, ctx, depth):
+        """a shared iterator: generator function result / generator expression / iterator object with close()."""
+        i = self.nid()
+        v = "g%d" % i
+        kind = self.rng.choice(["genfn", "genfn", "genexp", "itobj"])
+        ctx.its.append((v, kind))
+        return dict(k="mkit", v=v, kind=kind, toks=["%s%s" % (v, c) for c in "abcd"[:self.rng.choice([1, 2, 3, 3, 4])]])
+
+    def g_drain(self, ctx, depth):
+        return dict(k="drain", v=self.rng.choice(ctx.its)[0])
+
+    def g_itobs(self, ctx, depth):
+        cand = [x for x in ctx.its if x[1] != "genexp"]
+        if not cand:
+            return None
+        v, kind = self.rng.choice(cand)
+        return dict(k="itobs", v=v, kind=kind)
 
     def g_textf(self, ctx, depth):
         return dict(k="textf", t="t%d" % self.nid(), fm=(self.nid() if self.rng.random() < self.p["p_fm"] else 0))
@@ -377,8 +424,11 @@ class Gen:
         else:
             a = self.gen_suite(ctx.child(loop_refs=ctx.loop_refs + 1, in_loop=True, under_for=True), depth - 1)
         els = self.gen_suite(ctx.child(in_else=True, under_for=True), depth - 1) if r.random() < .35 else []
-        return dict(k="for", n=r.choice([0, 1, 2, 2, 3]), sized=r.random() < .7, a=a, els=els, has_else=bool(els) or r.random() < .2,
-                    im=self.cmark(ctx, rl_ok=not ctx.freeze_loop))
+        st = dict(k="for", n=r.choice([0, 1, 2, 2, 3]), sized=r.random() < .7, a=a, els=els, has_else=bool(els) or r.random() < .2,
+                  im=self.cmark(ctx, rl_ok=not ctx.freeze_loop), src="")
+        if ctx.its and r.random() < self.p["p_src"]:
+            st.update(src=r.choice(ctx.its)[0], n=0, sized=False)       # draws from a shared iterator
+        return st
 
     def g_while(self, ctx, depth):
         return dict(k="while", n=self.rng.choice([0, 1, 2, 3]), id=self.nid(), cm=self.cmark(ctx),
@@ -398,6 +448,11 @@ class Gen:
         self.ids = itertools.count(1)
         self.nincs = r.randint(*self.p["nincs"])
         names = []
+        pys = []
+        for i in range(r.randint(*self.p["npy"])):
+            self.gen_pydef("y%d" % i)
+            pys.append("y%d" % i)
+        names += pys
         for i in range(r.randint(*self.p["ndefs"])):
             key = "d%d" % i
             c = Ctx(names)
@@ -417,7 +472,8 @@ class Gen:
             return self.gen_prog()
         eh = r.choice(self.p["eh_modes"]) if r.random() < self.p["eh"] else "none"
         xc = r.choice(self.p["xcs"])
-        out = dict(defs=self.defs, incs=incs, body=body, eh=eh, top=names, el="on", xc=xc, route=r.choice(self.p["routes"]),
+        out = dict(defs=self.defs, incs=incs, body=body, eh=eh, top=[k for k in names if k not in pys], py=pys,
+                   pymod=bool(pys) and r.random() < self.p["p_pymod"], el="on", xc=xc, route=r.choice(self.p["routes"]),
                    fe=(eh == "none" and XB[xc] and r.random() < self.p.get("fe", 0.0)),
                    lk=(r.random() < self.p["p_lk"] and len({t["ieh"] for t in incs}) <= 1), inh=False, base=[])
         if r.random() < self.p["p_inh"]:
@@ -550,13 +606,14 @@ TLA_KEYS = {  # fields of each record kind that the spec reads
     "text": ("k", "t"), "mark": ("k", "m", "rl", "w"), "expr": ("k", "parts"), "lit": ("k", "t"), "val": ("k", "v"),
     "call": ("k", "d", "via", "args"), "cap": ("k", "d", "args"), "cbody": ("k", "args"),
     "callc": ("k", "parts", "body", "bparams", "defs"), "block": ("k", "d"), "inc": ("k", "t"),
-    "if": ("k", "arms", "els"), "for": ("k", "n", "sized", "a", "els", "im"), "while": ("k", "n", "a", "cm"), "try": ("k", "a", "h"),
+    "if": ("k", "arms", "els"), "for": ("k", "n", "sized", "a", "els", "im", "src"), "while": ("k", "n", "a", "cm"), "try": ("k", "a", "h"),
     "with": ("k", "t1", "t2", "a", "cm"), "py": ("k", "v", "t"), "ret": ("k",), "brk": ("k",), "cont": ("k",), "textf": ("k", "t", "fm"), "nextbody": ("k",),
+    "mkit": ("k", "v", "toks"), "drain": ("k", "v"), "itobs": ("k", "v", "kind"),
 }
 
 
 NONE = {"k": "none"}
-_DEFAULTS = {"for": {"im": NONE}, "while": {"cm": NONE}, "with": {"cm": NONE}}
+_DEFAULTS = {"for": {"im": NONE, "src": ""}, "while": {"cm": NONE}, "with": {"cm": NONE}}
 
 
 def tla(v):
@@ -678,6 +735,39 @@ def Dm(m):
     return deco
 def dsj(kw):
     return "".join("[%s:]%s" % (n, v) for n, v in sorted(kw.items()))
+def pycap(context, name, *a, **kw):
+    from mako import runtime
+    return runtime.capture(context, getattr(context['self'], name), *a, **kw)
+def genf(items, log, name):
+    try:
+        for x in items:
+            yield x
+    finally:
+        log.append(name)
+class ItObj:
+    """an iterator object with a close() method that records calls."""
+    def __init__(self, items, log, name):
+        self.items, self.log, self.name = list(items), log, name
+    def __iter__(self):
+        return self
+    def __next__(self):
+        if not self.items:
+            raise StopIteration
+        return self.items.pop(0)
+    def close(self):
+        self.log.append(self.name + ':close')
+class GetItemOnly:
+    def __init__(self, n):
+        self.n = n
+    def __getitem__(self, i):
+        if i >= self.n:
+            raise IndexError(i)
+        return i
+class NoLen:
+    def __init__(self, n):
+        self.n = n
+    def __iter__(self):
+        return iter(range(self.n))
 def vis(v):
     import re
     if v is None:
@@ -769,6 +859,15 @@ class Conc:
             return self.r.choice([d, d, "self." + d, "local." + d])
         return d
 
+    def callexpr(self, d, a):
+        """a call of def `d` with argument text `a`; Python callables take the context explicitly unless they are
+        reached through a module= namespace."""
+        if d in self.p.get("py", ()):
+            if self.p.get("pymod"):
+                return "pm.%s(%s)" % (d, a)
+            return "%s(context%s)" % (d, (", " + a) if a else "")
+        return "%s(%s)" % (self.target(d, "name"), a)
+
     def part(self, s, amark, in_body):
         k = s["k"]
         if k == "lit":
@@ -780,10 +879,18 @@ class Conc:
         if k == "call":
             if s["via"] == "caller":
                 return "(caller.%s(%s) if caller and hasattr(caller, '%s') else '')" % (s["d"], self.args_text(s["args"], amark), s["d"])
-            return "%s(%s)" % (self.target(s["d"], s["via"]), self.args_text(s["args"], amark))
+            return self.callexpr(s["d"], self.args_text(s["args"], amark))
         if k == "cap":
             a = self.args_text(s["args"], amark)
-            return "capture(%s%s)" % (self.target(s["d"], "name"), (", " + a) if a else "")
+            d = s["d"]
+            if d in self.p.get("py", ()):
+                if self.p.get("pymod"):
+                    return "capture(pm.%s%s)" % (d, (", " + a) if a else "")
+                return "capture(%s, context%s)" % (d, (", " + a) if a else "")
+            if d in self.p["top"] and self.cur_tmpl == 0 and not self.plain and amark is None and self.r.random() < .3:
+                # a plain Python function calling runtime.capture(context, f, ...)
+                return "pycap(context, '%s'%s)" % (d, (", " + a) if a else "")
+            return "capture(%s%s)" % (self.target(d, "name"), (", " + a) if a else "")
         if k == "cbody":
             return "(caller.body(%s) if caller else '')" % self.args_text(s["args"], amark)
         raise MachineryError("unknown part %r" % (s,))
@@ -868,7 +975,14 @@ class Conc:
             if bargs:
                 attrs += ' args="%s"' % bargs
             return "<%%%s:%s%s>\n%s</%%%s:%s>\n" % (ns, d, attrs, inner, ns, d)
-        expr = "%s(%s)" % (self.target(d, "name"), self.args_text(call["args"], amark))
+        if d in self.p.get("py", ()) and self.p.get("pymod") and not call["args"]["pos"] and not self.plain and self.r.random() < .5:
+            attrs = ""
+            for i, a in enumerate(call["args"]["kw"]):
+                attrs += ' %s="%s"' % (a["n"], self.attr_value(a["v"], amark if i == 0 else None))
+            if bargs:
+                attrs += ' args="%s"' % bargs
+            return "<%%pm:%s%s>\n%s</%%pm:%s>\n" % (d, attrs, inner, d)
+        expr = self.callexpr(d, self.args_text(call["args"], amark))
         return '<%%call expr="%s"%s>\n%s</%%call>\n' % (expr, (' args="%s"' % bargs) if bargs else "", inner)
 
     def truth(self, v):
@@ -888,12 +1002,20 @@ class Conc:
         return self.wrap(c.get("cm"), "loop." + c["ck"])
 
     def iterable(self, n, sized):
+        """"whatever the iterable": list, tuple, str, range, dict and its views, set (<= 1 element) when sized;
+        generator expression, iterator, generator function result, __getitem__-only object, __iter__-only object
+        (no len()) when not."""
         r = self.r
         if sized:
             forms = ["range(%d)" % n, "[%s]" % ", ".join(str(i) for i in range(n)), "'abcdef'[:%d]" % n,
-                     "(%s)" % "".join("%d, " % i for i in range(n)) if n else "()", "list(range(%d))" % n]
+                     "(%s)" % "".join("%d, " % i for i in range(n)) if n else "()", "list(range(%d))" % n,
+                     "dict.fromkeys(range(%d))" % n, "dict.fromkeys(range(%d)).keys()" % n, "dict.fromkeys(range(%d)).items()" % n,
+                     "dict.fromkeys(range(%d)).values()" % n]
+            if n <= 1:
+                forms.append("set(range(%d))" % n)
         else:
-            forms = ["(q for q in range(%d))" % n, "iter(range(%d))" % n, "iter([%s])" % ", ".join(str(i) for i in range(n))]
+            forms = ["(q for q in range(%d))" % n, "iter(range(%d))" % n, "iter([%s])" % ", ".join(str(i) for i in range(n)),
+                     "genf(range(%d), [], 'z')" % n, "GetItemOnly(%d)" % n, "NoLen(%d)" % n, "ItObj(range(%d), [], 'z')" % n]
         return forms[0] if self.plain else r.choice(forms)
 
     def pyblock(self, lines):
@@ -946,8 +1068,8 @@ class Conc:
                 o += self.ctl("else:") + self.suite(s["els"])
             return o + self.end("if")
         if k == "for":
-            o = self.ctl("for v%d in %s:" % (r.randrange(1000) if not self.plain else 0,
-                                            self.wrap(s.get("im"), self.iterable(s["n"], s["sized"])))) + self.suite(s["a"])
+            it = s["src"] if s.get("src") else self.iterable(s["n"], s["sized"])
+            o = self.ctl("for v%d in %s:" % (r.randrange(1000) if not self.plain else 0, self.wrap(s.get("im"), it))) + self.suite(s["a"])
             if s["els"] or s.get("has_else"):
                 o += self.ctl("else:") + self.suite(s["els"])
             return o + self.end("for")
@@ -963,6 +1085,17 @@ class Conc:
                     + self.suite(s["a"]) + self.end("with"))
         if k == "py":
             return self.pyblock(["%s = %s" % (s["v"], self.pystr(s["t"]))])
+        if k == "mkit":
+            items = "[%s]" % ", ".join(self.pystr(t) for t in s["toks"])
+            make = {"genfn": "genf(%s, itlog, '%s')" % (items, s["v"]), "genexp": "(q for q in %s)" % items,
+                    "itobj": "ItObj(%s, itlog, '%s')" % (items, s["v"])}[s["kind"]]
+            return self.pyblock(["%s = %s" % (s["v"], make)])
+        if k == "drain":
+            return "${''.join(%s)}\n" % s["v"]
+        if k == "itobs":
+            mark = s["v"] if s["kind"] == "genfn" else s["v"] + ":close"
+            bad = "fin" if s["kind"] == "genfn" else "closed"
+            return "${(%s, '[%s]' if '%s' in itlog else '[untouched]')[1]}\n" % (s["v"], bad, mark)
         if k == "ret":
             return self.pyblock(["return STOP_RENDERING"])
         if k == "brk":
@@ -979,15 +1112,75 @@ class Conc:
             o += self.comment()
         return o
 
+    def pysuite(self, stmts, ind):
+        """the body of a Python callable (subset of the statement grammar) as Python source."""
+        pad = "    " * ind
+        o = []
+        for s in stmts:
+            k = s["k"]
+            if k == "text":
+                o.append(pad + "context.write('[%s]')" % s["t"])
+            elif k == "mark":
+                o.append(pad + self.mk(s))
+            elif k == "expr":
+                ps = self.parts_text(s["parts"])
+                o.append(pad + "context.write(str(%s))" % (" + ".join(ps) if ps else "''"))
+            elif k == "py":
+                o.append(pad + "%s = %s" % (s["v"], self.pystr(s["t"])))
+            elif k == "try":
+                o += [pad + "try:", self.pysuite(s["a"], ind + 1), pad + "except Boom:", self.pysuite(s["h"], ind + 1)]
+            elif k == "if":
+                for i, arm in enumerate(s["arms"]):
+                    o += [pad + "%s %s:" % ("if" if i == 0 else "elif", self.cond(arm["c"])), self.pysuite(arm["a"], ind + 1)]
+                if s["els"] or s.get("has_else"):
+                    o += [pad + "else:", self.pysuite(s["els"], ind + 1)]
+            elif k == "for":
+                it = "range(%d)" % s["n"] if s["sized"] else "iter(range(%d))" % s["n"]
+                o += [pad + "for v%d in %s:" % (ind, self.wrap(s.get("im"), it)), self.pysuite(s["a"], ind + 1)]
+                if s["els"] or s.get("has_else"):
+                    o += [pad + "else:", self.pysuite(s["els"], ind + 1)]
+            elif k == "ret":
+                o.append(pad + "return ''")
+            elif k == "brk":
+                o.append(pad + "break")
+            elif k == "cont":
+                o.append(pad + "continue")
+            else:
+                raise MachineryError("statement %r in a Python callable" % (s,))
+        if not stmts:
+            o.append(pad + "pass")
+        return "\n".join(o)
+
+    def pydefs_source(self):
+        p = self.p
+        src = ["from mako import runtime"]
+        for key in p.get("py", ()):
+            d = p["defs"][key]
+            ps = self.params_text(d["params"])
+            src += ["@runtime.supports_caller", "def %s(context%s):" % (key, (", " + ps) if ps else ""),
+                    "    caller, mk, Boom = context['caller'], context['mk'], context['Boom']",
+                    "    dsj = lambda kw: ''.join('[%s:]%s' % (n, v) for n, v in sorted(kw.items()))",
+                    self.pysuite(d["body"], 1), "    return ''"]
+        return "\n".join(src) + "\n"
+
     def templates(self):
         p = self.p
         out = {}
+        pyblock = ""
+        if p.get("py"):
+            if p.get("pymod"):
+                _PYMOD[0] += 1
+                name = "mvpy_%d_%d" % (os.getpid(), _PYMOD[0])
+                out["__pymod__"] = (name, self.pydefs_source())
+                pyblock = '<%%namespace name="pm" module="%s"/>\n' % name
+            else:
+                pyblock = "<%!\n" + self.pydefs_source() + "%>\n"
         self.cur_tmpl = 0
         page = ""
         if p.get("el") == "page":
             page = '<%page enable_loop="True"/>\n'
         inh = '<%inherit file="base"/>\n' if p.get("inh") else ""
-        out["main"] = page + inh + MODULE_BLOCK + "".join(self.def_text(k) for k in p["top"]) + self.suite(p["body"])
+        out["main"] = page + inh + MODULE_BLOCK + pyblock + "".join(self.def_text(k) for k in p["top"]) + self.suite(p["body"])
         if p.get("inh"):
             self.cur_tmpl = -1
             out["base"] = MODULE_BLOCK + self.suite(p["base"])
@@ -996,6 +1189,26 @@ class Conc:
             self.cur_tmpl = i + 1
             out["inc%d" % (i + 1)] = MODULE_BLOCK + self.suite(t["body"])
         return out
+
+
+_PYMOD = [0]
+_PYDIR = [None]
+
+
+def _install_pymod(name, source):
+    """write a module for <%namespace module=...> where `import` finds it (removed at exit)."""
+    import atexit
+    import importlib
+    import shutil
+    import sys
+    import tempfile
+    if _PYDIR[0] is None:
+        _PYDIR[0] = tempfile.mkdtemp(prefix="mvpy-", dir="/dev/shm" if os.path.isdir("/dev/shm") else None)
+        sys.path.insert(0, _PYDIR[0])
+        atexit.register(shutil.rmtree, _PYDIR[0], True)
+    with open(os.path.join(_PYDIR[0], name + ".py"), "w") as f:
+        f.write(source)
+    importlib.invalidate_caches()
 
 
 # =========================================================================== execution on real Mako
@@ -1061,6 +1274,8 @@ class Executor:
         from mako.lookup import TemplateLookup
         from mako.template import Template
         p = self.prog
+        if "__pymod__" in self.texts:
+            _install_pymod(*self.texts["__pymod__"])
         self.falsy = [False, None, 0][len(p["body"]) % 3]
         self.xcls = {"boom": Boom, "abort": Abort, "sysexit": SystemExit, "kbint": KeyboardInterrupt, "stopiter": StopIteration}[p.get("xc", "boom")]
         eh = hmode(p["eh"])
@@ -1079,7 +1294,8 @@ class Executor:
                 lkw["include_error_handler"] = self._handler("ieh", modes.pop())
             lk = TemplateLookup(**lkw)
             for uri in sorted(self.texts):
-                lk.put_string(uri, self.texts[uri])
+                if not uri.startswith("__"):
+                    lk.put_string(uri, self.texts[uri])
             self.main = lk.get_template("main")
         else:
             lk = TemplateLookup()
@@ -1171,7 +1387,7 @@ class Executor:
                 yield None
             finally:
                 context.write(t2)
-        data = dict(mk=self._mk, Boom=self.xcls, cm=cm)
+        data = dict(mk=self._mk, Boom=self.xcls, cm=cm, itlog=[])
         if self.prog.get("el", "on") == "off":
             data["loop"] = "ctxloop"
         route = self.prog.get("route", "context")
